@@ -6,6 +6,61 @@ theorem anyPanic_cons {α} (r : Res α) (rs : List (Res α)) :
     anyPanic (r :: rs) = (r.isPanic || anyPanic rs) := by
   cases r <;> simp [anyPanic, Res.isPanic]
 
+theorem anyPanic_false_iff {α} : ∀ (rs : List (Res α)), anyPanic rs = false ↔ ∀ r ∈ rs, r.isPanic = false
+  | [] => by simp [anyPanic]
+  | r :: rs => by
+    rw [anyPanic_cons, Bool.or_eq_false_iff, anyPanic_false_iff rs]
+    simp
+
+theorem mem_zipPR {c : Payload} {r : Res GoVal} : ∀ {cs : List Payload} {rs : List (Res GoVal)},
+    (c, r) ∈ zipPR cs rs → r ∈ rs
+  | [], _, h => by simp [zipPR] at h
+  | _ :: _, [], h => by simp [zipPR] at h
+  | c' :: cs, r' :: rs, h => by
+    simp only [zipPR, List.mem_cons, Prod.mk.injEq] at h
+    rcases h with h | h
+    · simp [h.2]
+    · exact List.mem_cons_of_mem _ (mem_zipPR h)
+
+theorem mem_insertSorted (ety : Ty) (x y : Payload × Res GoVal) : ∀ (l : List (Payload × Res GoVal)),
+    y ∈ insertSorted ety x l → y = x ∨ y ∈ l
+  | [], h => by simpa [insertSorted] using h
+  | z :: l, h => by
+    simp only [insertSorted] at h
+    split at h
+    · simpa using h
+    · simp only [List.mem_cons] at h ⊢
+      rcases h with h | h
+      · exact Or.inr (Or.inl h)
+      · rcases mem_insertSorted ety x y l h with h | h
+        · exact Or.inl h
+        · exact Or.inr (Or.inr h)
+
+theorem mem_foldl_insertSorted (ety : Ty) (y : Payload × Res GoVal) : ∀ (xs acc : List (Payload × Res GoVal)),
+    y ∈ xs.foldl (fun acc x => insertSorted ety x acc) acc → y ∈ xs ∨ y ∈ acc
+  | [], acc, h => Or.inr h
+  | x :: xs, acc, h => by
+    simp only [List.foldl_cons] at h
+    rcases mem_foldl_insertSorted ety y xs _ h with h | h
+    · exact Or.inl (List.mem_cons_of_mem _ h)
+    · rcases mem_insertSorted ety x y acc h with h | h
+      · exact Or.inl (by simp [h])
+      · exact Or.inr h
+
+/-- visiting the members of a set in iteration order meets the same per-member results -/
+theorem mem_setOrder {ety : Ty} {cs : List Payload} {rs : List (Res GoVal)} {r : Res GoVal}
+    (h : r ∈ setOrder ety cs rs) : r ∈ rs := by
+  unfold setOrder at h
+  obtain ⟨⟨c, r'⟩, hm, rfl⟩ := List.mem_map.mp h
+  rcases mem_foldl_insertSorted ety (c, r') _ [] hm with h | h
+  · exact mem_zipPR h
+  · simp at h
+
+theorem setOrder_noPanic (ety : Ty) (cs : List Payload) (rs : List (Res GoVal)) (h : anyPanic rs = false) :
+    anyPanic (setOrder ety cs rs) = false := by
+  rw [anyPanic_false_iff] at h ⊢
+  exact fun r hr => h r (mem_setOrder hr)
+
 theorem seqAll_isPanic {α} : ∀ (rs : List (Res α)), anyPanic rs = false → (seqAll rs).isPanic = false
   | [], _ => rfl
   | r :: rs, h => by
@@ -138,13 +193,13 @@ theorem fromCtyP_noPanic : ∀ (p : Payload) (ty : Ty) (T : GoTy), containsMarke
       · simp only [List.isEmpty_nil, Bool.not_true, Bool.false_eq_true, if_false]
         split
         · rfl
-        · simp [mapRes_isPanic, seqAll_isPanic _ (fromCtyL_noPanic cs _ _ h)]
+        · simp [mapRes_isPanic, seqAll_isPanic _ (setOrder_noPanic _ cs _ (fromCtyL_noPanic cs _ _ h))]
       · simp only [List.isEmpty_nil, Bool.not_true, Bool.false_eq_true, if_false]
         split
         · rfl
         · split
           · rfl
-          · simp [mapRes_isPanic, seqAll_isPanic _ (fromCtyL_noPanic cs _ _ h)]
+          · simp [mapRes_isPanic, seqAll_isPanic _ (setOrder_noPanic _ cs _ (fromCtyL_noPanic cs _ _ h))]
       · rfl
     · rfl
 theorem fromCtyL_noPanic : ∀ (cs : List Payload) (ety : Ty) (E : GoTy), containsMarkedL cs = false →
